@@ -424,8 +424,48 @@ class Gen:
             return (r.choice(['(', '[']), [tree(d - 1) for _ in range(r.below(4))])
         return (f, [(kind, [tree(3) for _ in range(r.below(5))])])
 
+    def case_format_subset(self):
+        """directives of the subset modelled in Lib/Format.lean, with the full flag / width / precision syntax"""
+        r = self.r
+        parts, vals = [], []
+        for _ in range(r.range(1, 4)):
+            parts.append(self.raw(r.below(3), small=True))
+            d = r.choice([b'd', b'i', b'x', b'X', b'o', b'c', b's', b's', b'd', b'%'])
+            if d == b'%':
+                parts.append(b'%%')
+                continue
+            nfl = r.choice([0, 0, 1, 1, 2, 3])
+            pool = {b'd': b'-+ 0', b'i': b'-+ 0', b'x': b'-0#', b'X': b'-0#', b'o': b'-0#', b'c': b'-', b's': b'-'}[d]
+            flags = bytes(r.choice(pool) for _ in range(nfl))
+            if r.chance(1, 40): flags = b'-+ #0-'          # six flags: "repeated flags" error
+            width = r.choice([b'', b'', b'1', b'3', b'6', b'12', b'08'])
+            prec = b''
+            if d != b'c' and r.chance(1, 3): prec = b'.' + r.choice([b'', b'0', b'1', b'3', b'10'])
+            if r.chance(1, 40): width = b'123'              # three digits: error
+            parts.append(b'%' + flags + width + prec + d)
+            if d in b'di': vals.append(I(r.choice([0, 1, -1, 7, 42, -42, 12345, -99999, INT32_MAX, INT32_MIN, r.range(-1000, 1000)])))
+            elif d in b'xXo': vals.append(I(r.choice([0, 1, 7, 8, 255, 256, 4095, 65535, INT32_MAX, r.below(100000)])))
+            elif d == b'c': vals.append(I(r.choice([65, 97, 48, 122, 33, 353, 126])))
+            else:
+                n = r.choice([0, 1, 2, 3, 5, 8, 99, 100, 101]) if r.chance(1, 6) else r.below(7)
+                al = [0x61, 0x62, 0x41, 0x20, 0x7a, 0xff, 0x80] + ([0x00] if r.chance(1, 8) else [])
+                vals.append((self.bkind(), bytes(r.choice(al) for _ in range(n))))
+        parts.append(self.raw(r.below(3), small=True))
+        k = r.below(14)
+        if k == 0 and vals: vals.pop()
+        elif k == 1 and vals:
+            i = r.below(len(vals))
+            vals[i] = S(b'zz') if vals[i][0] == 'i' else I(5)
+        elif k == 2: vals.append(I(1))                      # surplus argument: ignored
+        fmt = S(b''.join(parts))
+        if r.chance(1, 3):
+            return ('buffer/format', [self.bufv(), fmt] + vals)
+        return ('string/format', [fmt] + vals)
+
     def case_format(self):
         r = self.r
+        if r.chance(2, 3):
+            return self.case_format_subset()
         parts, vals = [], []
         for _ in range(r.below(4)):
             parts.append(self.raw(r.below(3), small=True).replace(b'%', b''))
